@@ -1,9 +1,13 @@
 import DaskModel.DriverLib
 import DaskModel.Model.Slice1D
 import DaskModel.Model.SetItem
+import DaskModel.Model.Store
+import DaskModel.Model.Take
 open Dask
 open Dask.Slice1D
 open Dask.SetItem
+open Dask.Store
+open Dask.Take
 
 /-! Line-protocol handlers of group `slicing` (C20, C21, C26, C29). -/
 
@@ -119,6 +123,19 @@ def hPosify : Handler := handler fun args =>
     if checkIntOOB n i then pure raised else pure (ok [.int (posifyInt n i)])
   | _ => none
 
+/-- `(takeplan (lengths…) (index…))` ↦ `(identity)` | `(plan (chunks…) ((taker…) …))` | `(raised)` -/
+def hTakePlan : Handler := handler fun args =>
+  match args with
+  | [ls, idx] => do
+    let ls ← ls.toNats?
+    let idx ← idx.toInts?
+    match takeIsIdentity ls.sum idx with
+    | none => pure raised
+    | some true => pure (.list [.sym "identity"])
+    | some false =>
+      pure (.list [.sym "plan", SExp.ofNats (takeChunks ls idx), .list ((takeNewChunks ls idx).map SExp.ofInts)])
+  | _ => none
+
 /-! ### C21 -/
 
 /-- `(parseslice size (slice))` ↦ `(ok (slice) implied reversed)` | `(raised)` -/
@@ -175,12 +192,62 @@ def hRevValue : Handler := handler fun args =>
     | none => pure raised
   | _ => none
 
+/-! ### C29 -/
+
+/-- `(slicesfromchunks ((c…) …))` ↦ per block `((start stop) …)` in product order -/
+def hSlicesFromChunks : Handler := handler fun args =>
+  match args with
+  | [cs] => do
+    let cs ← cs.toNatss?
+    pure (.list ((slicesFromChunks cs).map fun blk => .list (blk.map fun (a, b) => .list [.int a, .int b])))
+  | _ => none
+
+/-- `(fuseslice (a) (b))` ↦ `(ok (slice))` | `(raised)` (NotImplementedError) -/
+def hFuseSlice : Handler := handler fun args =>
+  match args with
+  | [a, b] => do
+    match fuseSlice (← toSlice? a) (← toSlice? b) with
+    | some r => pure (ok [ofSlice r])
+    | none => pure raised
+  | _ => none
+
+/-- `(fuseint (a) b)` ↦ `(ok v)` | `(raised)` -/
+def hFuseInt : Handler := handler fun args =>
+  match args with
+  | [a, b] => do
+    match fuseInt (← toSlice? a) (← b.toInt?) with
+    | some r => pure (ok [.int r])
+    | none => pure raised
+  | _ => none
+
+/-- `(storeplan targetLen region|none (lengths…))` ↦ `(ok ((positions…) …))` | `(raised)` -/
+def hStorePlan : Handler := handler fun args =>
+  match args with
+  | [n, r, ls] => do
+    let n ← n.toNat?
+    let ls ← ls.toNats?
+    let r ← match r with
+      | .sym "none" => some none
+      | e => (toSlice? e).map some
+    match storePlan n r ls with
+    | some p => pure (ok [.list (p.map SExp.ofInts)])
+    | none => pure raised
+  | _ => none
+
+/-- `(npychunks axis ((c…) …))` -/
+def hNpyChunks : Handler := handler fun args =>
+  match args with
+  | [ax, cs] => do pure (SExp.ofNatss (npyChunks (← ax.toNat?) (← cs.toNatss?)))
+  | _ => none
+
 def table : List (String × Handler) := [
+  ("slicesfromchunks", hSlicesFromChunks), ("fuseslice", hFuseSlice), ("fuseint", hFuseInt),
+  ("storeplan", hStorePlan), ("npychunks", hNpyChunks),
   ("parseslice", hParseSlice), ("blockslices", hBlockSlices), ("blockint", hBlockInt),
   ("blockbool", hBlockBool), ("revvalue", hRevValue),
   ("pyindices", hPyIndices), ("pyslice", hPySlice), ("pymod", hPyMod), ("normslice", hNormSlice),
   ("slice1d", hSlice1d), ("slice1dint", hSlice1dInt), ("newblockdim", hNewBlockdim),
-  ("planden", hPlanDen), ("posify", hPosify)]
+  ("planden", hPlanDen), ("posify", hPosify), ("takeplan", hTakePlan)]
 
 end SlicingDriver
 
